@@ -104,6 +104,8 @@ class Req:
             return 'R %d %s' % (f['idx'], h16(f['msg']))
         if self.cmd == 'Y':
             return 'Y %d %d %d ' % (f['flag'], f['maxw'], len(f['items'])) + ' '.join('%d %s %s' % (t, h8(c), h16(m)) for t, c, m in f['items'])
+        if self.cmd == 'T':
+            return 'T %d %d %d' % (f['flag'], f['idx'], f['line'])
         if self.cmd == 'G':
             return 'G %d ' % len(f['items']) + ' '.join('%d %s %s' % (t, h8(c), h16(m)) for t, c, m in f['items'])
         raise ValueError(self.cmd)
@@ -148,6 +150,10 @@ class Req:
         d['sizes'] = {k: len(f[k]) for k in ('pattern', 'msg', 'rules', 'cat', 'file', 'func') if f[k]}
         if self.cmd == 'Y':
             d['colorize'], d['maxCategoryWidth'] = f['flag'], f['maxw']
+        if self.cmd == 'T':
+            d['threads'], d['rounds_per_thread'], d['salt'] = f['flag'], f['idx'], f['line']
+            d['what'] = ('%d threads, each with its own PatternFormatter("%%{func}"), each formatting %d function texts not seen before: '
+                         '"virtual void t%d_<id>::Cls<int>::m<i>(const QString &, int) const"' % (f['flag'], f['idx'], f['line']))
         if self.cmd == 'G':
             d['chain'] = 'configure(&pipeline, <path>, 0, 0, None, async=false); pipeline.process(each item)'
         if self.answer_units is not None:
@@ -615,7 +621,7 @@ def run_parallel(exe, lines, nproc, env=None, budget=BUDGET_S):
 
 def first_report_line(rep):
     for l in (rep or '').splitlines():
-        if 'runtime error' in l or 'ERROR: AddressSanitizer' in l or 'ASSERT' in l or 'terminate called' in l or 'what():' in l:
+        if 'runtime error' in l or 'ERROR: AddressSanitizer' in l or 'ASSERT' in l or 'terminate called' in l or 'what():' in l or 'SUMMARY: AddressSanitizer' in l:
             return l.strip()[:300]
     ls = [l for l in (rep or '').splitlines() if l.strip()]
     return (ls[0].strip()[:300] if ls else '')
@@ -882,6 +888,28 @@ def run():
     reqs_g = configure_family(rng, 3000 if thorough else 400)
     res_g, dis_g, fault_g, us_g = seq_leg(reqs_g, 'configure', 'configure() chain')
     max_us = max(max_us, us_g)
+    # ---- leg T: independent formatter objects on several threads, function texts nobody has formatted yet ----------
+    # (no object is shared: whatever goes wrong here is hidden state shared between formatter objects).  The closed
+    # form of the expected text is tied to the checked cleanup model on a sample.
+    reqs_t = [Req('T', flag=rng.choice([2, 4]), idx=3000, line=rng.randrange(1000)) for _ in range(6 if thorough else 2)]
+    t_sample = [(b'virtual void t%d_%d::Cls<int>::m%d(const QString &, int) const' % (q.f['line'], i, j), b't%d_%d::Cls::m%d' % (q.f['line'], i, j))
+                for q in reqs_t for i in range(q.f['flag']) for j in (0, 7, 2999)]
+    rc, mod_t, err = vlib.run_lines(m_cleanup, [h8(x) for x, _ in t_sample], timeout=300)
+    if mod_t != ['ok ' + w.hex() for _, w in t_sample]:
+        chk.broke('leg T: the closed form of the expected %{func} text is not what the checked cleanup model computes',
+                  {'kind': 'model_driver', 'sample': show8(t_sample[0][0]), 'model': mod_t[:1]})
+    res_t = run_parallel(impl, [r.line() for r in reqs_t], 2) + run_parallel(san, [r.line() for r in reqs_t], 2, env=SAN_ENV, budget=SAN_BUDGET_S)
+    t_wrong = 0
+    for rq, r, exe in zip(reqs_t + reqs_t, res_t, [impl] * len(reqs_t) + [san] * len(reqs_t)):
+        if r[0] in ('crash', 'timeout'):
+            findings.append((rq, exe, r[0], r[3]))
+        elif r[0] == 'ok' and r[1].strip() != '0':
+            t_wrong += 1
+            findings.append((rq, exe, 'wrong-text', '%s of the %d outputs are not the clean function name' % (r[1], rq.f['flag'] * rq.f['idx'])))
+        elif r[0] == 'ok' and r[2] > (SAN_BUDGET_S if exe == san else BUDGET_S) * 1e6:
+            findings.append((rq, exe, 'slow', '%d us' % r[2]))
+        elif r[0] == 'skipped':
+            skipped += 1
     # ---- leg D: ASan+UBSan over everything, sizes up to 64 KiB, time budget -------------------
     reqs_d = []
     big = [1 << 10, 1 << 12, 1 << 14, 1 << 16]
@@ -1101,7 +1129,7 @@ def run():
            'objc_prefix': sum(s[:1] in (b'+', b'-') for s in sigs), 'byte_ge_0x80': sum(any(c >= 128 for c in s) for s in sigs),
            'qualifier_tail': sum(any(s.endswith(q) for q in (b' const', b' volatile', b' noexcept', b' override', b' final')) for s in sigs),
            'empty': sum(1 for s in sigs if not s)}
-    evals = len(sigs) + len(reqs_b) + len(reqs_c) + len(reqs_g) + len(lines_d) + len(reqs_star) + len(probes) + 1
+    evals = len(sigs) + len(reqs_b) + len(reqs_c) + len(reqs_g) + len(res_t) + len(lines_d) + len(reqs_star) + len(probes) + 1
     chk.cov.update({
         'evaluations': evals,
         'distinct_nontrivial': len({s for s, r in zip(sigs_all, res_a) if s is not None and r[0] == 'ok' and r[1] != h16(list(s))}) + nontrivial_b,
@@ -1112,7 +1140,8 @@ def run():
                 'range (INT_MAX = no limit, INT_MAX-1..-4, 0, +-1, INT_MIN, 2^30, ...) x category sequences that grow the column (plain+model AND '
                 'sanitized); G: the formatter chain of configure(pipeline, path, ...) (PrettyFormatter -> colour codes removed -> file sink) on '
                 'message texts made of ESC fragments (cut-off, complete, nested codes) x all message types, real vs checked model, time budget, '
-                'plain AND sanitized, texts up to 64 KiB; D: ASan+UBSan build over P/J/S/C/R/Y requests with '
+                'plain AND sanitized, texts up to 64 KiB; T: 2-4 threads, each with its own PatternFormatter("%{func}") and 3000 function texts not '
+                'formatted before (plain AND sanitized; expected text tied to the cleanup model on a sample); D: ASan+UBSan build over P/J/S/C/R/Y requests with '
                 'arbitrary bytes and every string position at sizes up to 64 KiB, per-input time budget; E: category rules with 8..40 stars x '
                 'matching / near-miss / missing categories <= 256 bytes under the 2 s budget; families (plain+model AND sanitized): '
                 'function texts of which only * & blanks remain, every placeholder / formatter / filter x null file / function / '
@@ -1129,6 +1158,8 @@ def run():
         'pretty_limit_cases_where_the_column_grows': sum(1 for r in reqs_c if r.f['maxw'] in LIMITS and
                                                          len({ln(c) for _, c, _ in r.f['items'] if c != list(b'default')}) > 1),
         'pretty_limit_cases_on_sanitized_build': sum(1 for r in reqs_d if r.cmd == 'Y' and abs(r.f['maxw']) >= INT_MAX - 3),
+        'concurrent_formatter_runs': len(res_t), 'concurrent_formatter_threads_x_rounds': [[r.f['flag'], r.f['idx']] for r in reqs_t],
+        'concurrent_formatter_wrong_text_runs': t_wrong,
         'configure_chain_cases': len(reqs_g), 'configure_chain_model_faults': len(fault_g), 'configure_chain_disagreements': len(dis_g),
         'configure_chain_on_sanitized_build': sum(1 for r in reqs_d if r.cmd == 'G'),
         'configure_chain_messages': sum(len(r.f['items']) for r in reqs_g),
